@@ -1,6 +1,6 @@
 (* C18: proofs about Model/AccrualPair.v - over every history of {later block, vault create, interest
    calculation, vault touch, fee update} every accrual is made at the fee in force over a period in which
-   that fee was in force and which was not charged before, except on vaults of the class kf_C18_2. *)
+   that fee was in force and which was not charged before (repaired start-of-period rule: no class is excluded). *)
 From Comdex Require Import Lib.Base Lib.DecArith Model.AccrualSites Model.AccrualPair.
 Require Import List ZArith Bool Lia.
 Import ListNotations.
@@ -13,7 +13,7 @@ Definition active (s : pstate) : bool := ps_wl s && negb (ps_stable s).
 
 Definition vinv (s : pstate) (v : pvault) : Prop :=
   pv_cov v <= ps_now s /\ pv_bt v <= ps_now s /\
-  (pv_taint v = false -> ps_fee s <> 0 ->
+  (ps_fee s <> 0 ->
    pv_cov v <= eff_bt s v /\ ps_tchg s <= eff_bt s v /\ eff_bt s v <= ps_now s).
 
 Definition PInv (s : pstate) : Prop :=
@@ -36,8 +36,8 @@ Qed.
 
 Lemma sweep_spec : forall vs now h lsr cbt ct i vs' cs,
   sweep calc now h lsr cbt ct i vs = Some (vs', cs, false) ->
-  Forall (fun v' => pv_bt v' = now /\ pv_cov v' = now /\ pv_taint v' = false /\ pv_bh v' = (if ct then h else 0)) vs' /\
-  Forall (fun c => In (ch_pre c) vs /\ ch_from c = (if pv_bh (ch_pre c) =? 0 then cbt else pv_bt (ch_pre c)) /\
+  Forall (fun v' => pv_bt v' = now /\ pv_cov v' = now /\ pv_bh v' = (if ct then h else 0)) vs' /\
+  Forall (fun c => In (ch_pre c) vs /\ ch_from c = (if (pv_bh (ch_pre c) =? 0) || (pv_bt (ch_pre c) <? cbt) then cbt else pv_bt (ch_pre c)) /\
                    ch_princ c = pv_debt (ch_pre c) /\ ch_rate c = lsr /\
                    calc now (ch_from c) (ch_princ c) lsr = Ok (ch_amt c)) cs.
 Proof.
@@ -71,7 +71,7 @@ Lemma calc_vault_spec : forall s i v v' cs,
   calc_vault calc s i v = Ok (v', cs) ->
   (v' = v /\ cs = []) \/
   (active s = true /\ ps_fee s <> 0 /\
-   pv_bh v' = ps_h s /\ pv_bt v' = ps_now s /\ pv_cov v' = ps_now s /\ pv_taint v' = false /\ pv_debt v' = pv_debt v /\
+   pv_bh v' = ps_h s /\ pv_bt v' = ps_now s /\ pv_cov v' = ps_now s /\ pv_debt v' = pv_debt v /\
    exists x, cs = [mkCh (Z.of_nat i) v (eff_bt s v) (pv_debt v + pv_intacc v) (ps_fee s) x] /\
              calc (ps_now s) (eff_bt s v) (pv_debt v + pv_intacc v) (ps_fee s) = Ok x).
 Proof.
@@ -96,7 +96,7 @@ Qed.
 Lemma nth_error_Forall : forall {A} (P : A -> Prop) l n x, Forall P l -> nth_error l n = Some x -> P x.
 Proof. intros A P l n x H E. rewrite Forall_forall in H. apply H. eapply nth_error_In; eauto. Qed.
 
-Definition legit_or_kf (s : pstate) (c : charge) : Prop := kf_C18_2 c = false -> charge_legit calc s c.
+Definition legit_or_kf (s : pstate) (c : charge) : Prop := charge_legit calc s c.
 
 (* the interruption flag only rises *)
 Lemma pstep_intr : forall s o s' cs, pstep calc s o = Ok (s', cs) -> ps_intr s' = false -> ps_intr s = false.
@@ -121,14 +121,21 @@ Proof.
     + inversion H; subst; exact I.
 Qed.
 
-Lemma vinv_stamped : forall s s' v, ps_now s' = ps_now s -> 1 <= ps_h s ->
-  pv_bh v = ps_h s -> pv_bt v = ps_now s -> pv_cov v = ps_now s -> ps_tchg s' <= ps_now s -> vinv s' v.
+Lemma eff_bt_now : forall s v, pv_bt v <= ps_now s -> ps_pbt s = ps_now s -> eff_bt s v = ps_now s.
 Proof.
-  intros s s' v Hn Hh Hb Ht Hc Hg. unfold vinv, eff_bt. rewrite Hn.
-  replace (pv_bh v =? 0) with false by (symmetry; apply Z.eqb_neq; lia). repeat split; lia.
+  intros s v Hb Hp. unfold eff_bt. rewrite Hp. destruct (pv_bh v =? 0); cbn [orb]; [reflexivity|].
+  destruct (Z.ltb_spec (pv_bt v) (ps_now s)); [reflexivity|lia].
 Qed.
 
-(* one step: the invariant is kept and every accrual of the step is legitimate or in the class *)
+Lemma vinv_stamped : forall s s' v, ps_now s' = ps_now s -> 1 <= ps_h s ->
+  pv_bh v = ps_h s -> pv_bt v = ps_now s -> pv_cov v = ps_now s -> ps_tchg s' <= ps_now s -> ps_pbt s' <= ps_now s -> vinv s' v.
+Proof.
+  intros s s' v Hn Hh Hb Ht Hc Hg Hp. unfold vinv, eff_bt. rewrite Hn.
+  replace (pv_bh v =? 0) with false by (symmetry; apply Z.eqb_neq; lia). cbn [orb].
+  destruct (Z.ltb_spec (pv_bt v) (ps_pbt s')); [lia|]. repeat split; lia.
+Qed.
+
+(* one step: the invariant is kept and every accrual of the step is legitimate *)
 Lemma pstep_inv : forall s o s' cs,
   PInv s -> pop_wf o -> pstep calc s o = Ok (s', cs) ->
   PInv s' /\ (ps_intr s' = false -> Forall (legit_or_kf s) cs).
@@ -138,51 +145,46 @@ Proof.
   destruct o as [dt dh|d|i|i dl|f]; cbn [pstep] in H; cbn [pop_wf] in W.
   - (* later block *)
     inversion H; subst; clear H. split; [|constructor].
-    unfold PInv; cbn. split; [lia|split; [lia|]]. intros I A. destruct (HI I A) as (P1 & P2 & P3). repeat split; try lia.
+    unfold PInv; cbn. split; [lia|split; [lia|]]. intros I A. destruct (HI I A) as (P1 & P2 & P3). split; [lia|split; [lia|]].
     eapply Forall_impl; [|exact P3]. unfold vinv, eff_bt; cbn. intros v (V1 & V2 & V3). split; [lia|]. split; [lia|].
-    intros T F. destruct (V3 T F) as (? & ? & ?). repeat split; lia.
+    intros F. destruct (V3 F) as (? & ? & ?). repeat split; lia.
   - (* MsgCreate *)
     inversion H; subst; clear H. split; [|constructor].
-    unfold PInv, with_vaults; cbn. split; [lia|split; [lia|]]. intros I A. destruct (HI I A) as (P1 & P2 & P3). repeat split; try lia.
+    unfold PInv, with_vaults; cbn. split; [lia|split; [lia|]]. intros I A. destruct (HI I A) as (P1 & P2 & P3). split; [lia|split; [lia|]].
     apply Forall_app. split.
     + eapply Forall_impl; [|exact P3]. unfold vinv, eff_bt; cbn. tauto.
-    + constructor; [|constructor]. unfold vinv, eff_bt; cbn. repeat split; try lia;
-        destruct (ps_fee s =? 0) eqn:F; try (apply Z.eqb_eq in F; contradiction);
-        replace (ps_h s =? 0) with false by (symmetry; apply Z.eqb_neq; lia); lia.
+    + constructor; [|constructor]. unfold vinv; cbn. split; [lia|split; [lia|]]. intros F.
+      unfold eff_bt; cbn. destruct (ps_fee s =? 0) eqn:F0; [apply Z.eqb_eq in F0; contradiction|].
+      replace (ps_h s =? 0) with false by (symmetry; apply Z.eqb_neq; lia). cbn [orb].
+      destruct (Z.ltb_spec (ps_now s) (ps_pbt s)); [lia|]. repeat split; lia.
   - (* MsgVaultInterestCalc *)
     destruct (nth_error (ps_vaults s) i) as [v|] eqn:N; try discriminate.
     destruct (calc_vault calc s i v) as [[v' c']| |] eqn:C; try discriminate. inversion H; subst; clear H.
-    apply calc_vault_spec in C as [(-> & ->)|(A & F & B1 & B2 & B3 & B4 & B5 & x & -> & Ec)].
+    apply calc_vault_spec in C as [(-> & ->)|(A & F & B1 & B2 & B3 & B5 & x & -> & Ec)].
     + split; [|constructor]. unfold PInv, with_vaults; cbn. split; [lia|split; [lia|]]. intros I Ac. destruct (HI I Ac) as (P1 & P2 & P3).
-      repeat split; try lia. apply Forall_set_nth; [exact P3|]. eapply nth_error_Forall; eauto.
+      split; [lia|split; [lia|]]. apply Forall_set_nth; [exact P3|]. eapply nth_error_Forall; eauto.
     + split.
       * unfold PInv, with_vaults; cbn. split; [lia|split; [lia|]]. intros I Ac. destruct (HI I Ac) as (P1 & P2 & P3).
-        repeat split; try lia. apply Forall_set_nth.
+        split; [lia|split; [lia|]]. apply Forall_set_nth.
         -- eapply Forall_impl; [|exact P3]. unfold vinv, eff_bt; cbn. tauto.
         -- eapply (vinv_stamped s); cbn; auto.
-      * intros I. constructor; [|constructor]. intros K. unfold kf_C18_2 in K; cbn in K.
+      * intros I. constructor; [|constructor]. unfold legit_or_kf.
         destruct (HI (Hpre I) A) as (P1 & P2 & P3). pose proof (nth_error_Forall _ _ _ _ P3 N) as (V1 & V2 & V3).
-        destruct (V3 K F) as (Q1 & Q2 & Q3).
-        unfold charge_legit; cbn. repeat split; auto. right. split; lia.
+        destruct (V3 F) as (Q1 & Q2 & Q3).
+        unfold charge_legit; cbn. split; [reflexivity|]. split; [right; split; lia|]. split; [right; reflexivity|exact Ec].
   - (* a vault message: interest, then the stamp *)
     destruct (nth_error (ps_vaults s) i) as [v|] eqn:N; try discriminate.
     destruct (calc_vault calc s i v) as [[v' c']| |] eqn:C; try discriminate. inversion H; subst; clear H.
-    assert (St : forall c0, ps_intr s = false -> active s = true ->
-       Forall (vinv (with_vaults s (set_nth i (mkPV (pv_debt v' + dl) (pv_intacc v') (pv_tracker v') (ps_h s) (ps_now s) (ps_now s) false) c0))) (ps_vaults s) ->
-       ps_tchg s <= ps_now s ->
-       Forall (vinv (with_vaults s (set_nth i (mkPV (pv_debt v' + dl) (pv_intacc v') (pv_tracker v') (ps_h s) (ps_now s) (ps_now s) false) c0)))
-              (set_nth i (mkPV (pv_debt v' + dl) (pv_intacc v') (pv_tracker v') (ps_h s) (ps_now s) (ps_now s) false) (ps_vaults s))).
-    { intros c0 I Ac P3 P2. apply Forall_set_nth; [exact P3|]. eapply (vinv_stamped s); cbn; auto. }
     split.
     + unfold PInv; cbn. split; [lia|split; [lia|]]. intros I Ac. destruct (HI I Ac) as (P1 & P2 & P3).
-      repeat split; try lia. apply Forall_set_nth.
+      split; [lia|split; [lia|]]. apply Forall_set_nth.
       * eapply Forall_impl; [|exact P3]. unfold vinv, eff_bt; cbn. tauto.
       * eapply (vinv_stamped s); cbn; auto.
-    + intros I. apply calc_vault_spec in C as [(-> & ->)|(A & F & B1 & B2 & B3 & B4 & B5 & x & -> & Ec)]; [constructor|].
-      constructor; [|constructor]. intros K. unfold kf_C18_2 in K; cbn in K. cbn in I.
+    + intros I. apply calc_vault_spec in C as [(-> & ->)|(A & F & B1 & B2 & B3 & B5 & x & -> & Ec)]; [constructor|].
+      constructor; [|constructor]. unfold legit_or_kf. cbn in I.
       destruct (HI I A) as (P1 & P2 & P3). pose proof (nth_error_Forall _ _ _ _ P3 N) as (V1 & V2 & V3).
-      destruct (V3 K F) as (Q1 & Q2 & Q3).
-      unfold charge_legit; cbn. repeat split; auto. right. split; lia.
+      destruct (V3 F) as (Q1 & Q2 & Q3).
+      unfold charge_legit; cbn. split; [reflexivity|]. split; [right; split; lia|]. split; [right; reflexivity|exact Ec].
   - (* WasmUpdatePairsVault *)
     unfold set_fee in H. fold (active s) in H.
     remember (if f =? ps_fee s then ps_tchg s else ps_now s) as tc eqn:Etc.
@@ -199,43 +201,38 @@ Proof.
         inversion H; subst; clear H. apply Z.eqb_eq in F0; subst f.
         split.
         -- unfold PInv; cbn. split; [lia|split; [lia|]]. intros I _. apply orb_false_elim in I as (I1 & I2). subst intr.
-           destruct Tc as [Tc|Tc]; [|exfalso; auto]. apply sweep_spec in S as (SA & _). repeat split; try lia.
-           eapply Forall_impl; [|exact SA]. unfold vinv; cbn. intros v (E1 & E2 & E3 & E4). repeat split; try lia.
+           destruct Tc as [Tc|Tc]; [|exfalso; auto]. apply sweep_spec in S as (SA & _). split; [lia|split; [lia|]].
+           eapply Forall_impl; [|exact SA]. unfold vinv; cbn. intros v (E1 & E2 & E4). split; [lia|split; [lia|]]. intros X; contradiction.
         -- cbn. intros I. apply orb_false_elim in I as (I1 & I2). subst intr. apply sweep_spec in S as (_ & SB).
            destruct (HI I1 eq_refl) as (P1 & P2 & P3).
-           eapply Forall_impl; [|exact SB]. cbn. intros c (In1 & E1 & E2 & E3 & E4) K.
+           eapply Forall_impl; [|exact SB]. cbn. intros c (In1 & E1 & E2 & E3 & E4). unfold legit_or_kf.
            unfold charge_legit. rewrite E3. split; [reflexivity|]. split; [|split; [left; exact E2|exact E4]].
            destruct (Z.eq_dec (ps_fee s) 0) as [Z0|NZ]; [left; exact Z0|right].
-           rewrite Forall_forall in P3. destruct (P3 _ In1) as (V1 & V2 & V3). unfold kf_C18_2 in K.
-           destruct (V3 K NZ) as (Q1 & Q2 & Q3). unfold eff_bt in *. rewrite E1. split; lia.
+           rewrite Forall_forall in P3. destruct (P3 _ In1) as (V1 & V2 & V3).
+           destruct (V3 NZ) as (Q1 & Q2 & Q3). unfold eff_bt in *. rewrite E1. split; lia.
       * destruct (ps_fee s =? 0) eqn:FZ.
         -- (* switched on: no vault visited *)
            inversion H; subst; clear H. split; [|constructor]. apply Z.eqb_eq in FZ. apply Z.eqb_neq in F0.
            unfold PInv; cbn. split; [lia|split; [lia|]]. intros I _.
-           destruct Tc as [Tc|Tc]; [|exfalso; auto]. destruct (HI I eq_refl) as (P1 & P2 & P3). repeat split; try lia.
+           destruct Tc as [Tc|Tc]; [|exfalso; auto]. destruct (HI I eq_refl) as (P1 & P2 & P3). split; [lia|split; [lia|]].
            assert (Tn : tc = ps_now s) by (apply Tn0; lia).
-           apply Forall_map. eapply Forall_impl; [|exact P3]. unfold vinv, eff_bt, taint_vault; cbn.
-           intros v (V1 & V2 & V3).
-           destruct (pv_bh v =? 0) eqn:B; cbn [negb andb].
-           ++ rewrite B. repeat split; try lia.
-           ++ destruct (pv_bt v <? ps_now s) eqn:L; cbn.
-              ** repeat split; try lia; discriminate.
-              ** rewrite B. apply Z.ltb_ge in L. repeat split; try lia.
+           eapply Forall_impl; [|exact P3]. unfold vinv. cbn [ps_now ps_fee ps_tchg]. intros v (V1 & V2 & V3).
+           split; [lia|split; [lia|]]. intros _. rewrite eff_bt_now; cbn; [lia|exact V2|reflexivity].
         -- destruct ((0 <? ps_fee s) && (0 <? f)) eqn:PP.
            ++ (* non-zero -> non-zero (or the same fee): sweep, the pair takes the block height *)
               destruct (sweep calc (ps_now s) (ps_h s) (ps_fee s) (ps_pbt s) true 0 (ps_vaults s)) as [[[vs c'] intr]|] eqn:S; try discriminate.
               inversion H; subst; clear H. apply Z.eqb_neq in FZ.
               split.
               ** unfold PInv; cbn. split; [lia|split; [lia|]]. intros I _. apply orb_false_elim in I as (I1 & I2). subst intr.
-                 destruct Tc as [Tc|Tc]; [|exfalso; auto]. apply sweep_spec in S as (SA & _). repeat split; try lia.
-                 eapply Forall_impl; [|exact SA]. unfold vinv, eff_bt; cbn. intros v (E1 & E2 & E3 & E4). rewrite E4.
-                 replace (ps_h s =? 0) with false by (symmetry; apply Z.eqb_neq; lia). repeat split; try lia.
+                 destruct Tc as [Tc|Tc]; [|exfalso; auto]. apply sweep_spec in S as (SA & _). split; [lia|split; [lia|]].
+                 eapply Forall_impl; [|exact SA]. unfold vinv. cbn [ps_now ps_fee ps_tchg]. intros v (E1 & E2 & E4).
+                 split; [lia|split; [lia|]]. intros _. rewrite eff_bt_now; cbn; [lia|lia|reflexivity].
               ** cbn. intros I. apply orb_false_elim in I as (I1 & I2). subst intr. apply sweep_spec in S as (_ & SB).
                  destruct (HI I1 eq_refl) as (P1 & P2 & P3).
-                 eapply Forall_impl; [|exact SB]. cbn. intros c (In1 & E1 & E2 & E3 & E4) K.
+                 eapply Forall_impl; [|exact SB]. cbn. intros c (In1 & E1 & E2 & E3 & E4). unfold legit_or_kf.
                  unfold charge_legit. rewrite E3. split; [reflexivity|]. split; [right|split; [left; exact E2|exact E4]].
-                 rewrite Forall_forall in P3. destruct (P3 _ In1) as (V1 & V2 & V3). unfold kf_C18_2 in K.
-                 destruct (V3 K FZ) as (Q1 & Q2 & Q3). unfold eff_bt in *. rewrite E1. split; lia.
+                 rewrite Forall_forall in P3. destruct (P3 _ In1) as (V1 & V2 & V3).
+                 destruct (V3 FZ) as (Q1 & Q2 & Q3). unfold eff_bt in *. rewrite E1. split; lia.
            ++ exfalso. apply Z.eqb_neq in FZ. apply Z.eqb_neq in F0. apply andb_false_iff in PP as [PP|PP]; apply Z.ltb_ge in PP; lia.
     + (* app not whitelisted / stable-mint pair: only the fee is stored *)
       inversion H; subst; clear H. split; [|constructor]. unfold PInv; cbn. split; [lia|split; [lia|]].
